@@ -132,6 +132,8 @@ type Runner struct {
 	// armed concurrent write: right before PKO's touchInjN-th write on one of its own API objects in the next pass a
 	// third party updates that object (resourceVersion moves on)
 	touchInjN, touchCount, touchSeq int
+	// HyperShift: the environment says PKO runs on a HyperShift management cluster (see applyEnv)
+	HyperShift bool
 	// InPassHook lets a property inject third-party actions inside a pass.
 	InPassHook func(r *Runner, c *kubesim.Call)
 	// Log collects a short human readable trace digest.
